@@ -78,10 +78,11 @@ PROPS["C13"] = {
         "the fact translator harness/cmd/extract: Ogen/Generated/Facts_float.lean — for every float text helper of conv and json the unique (verb, precision, bit size) whose strconv.FormatFloat reproduces the helper of the working tree (linked into the translator) on probe values that tell all candidates apart — regenerated on every run; float_spec_ok is stated over it",
         "generated code: one query and one header parameter per declared format through a regenerated client and server — the text on the wire is compared with the text the format prescribes (computed with the standard library in the harness), the value that arrives with the value sent",
         "model UuidT (json.hexEncode — ogen's own UUID writer — and the 36-byte branch of uuid.ParseBytes) hand-written; tie = json.EncodeUUID and conv.UUIDToString on every octet value at every position and random UUIDs, uuid.ParseBytes / json.DecodeUUID on canonical texts and one-byte mutants, line by line",
-        "NOT proved (standard-library contracts, exercised on the implementation only): ParseFloat∘FormatFloat(-1, bits), time.Parse∘Format for the date/time/date-time layouts, time.ParseDuration∘Duration.String and ogen's formatDuration port, the other input forms of uuid.Parse, netip/MAC/url round trips",
+        "model DurT (json.formatDuration — ogen's port of Duration.String — with fmtFrac's digit loop; DurT.value = the reading of a duration text that time.ParseDuration documents, exact arithmetic, int64 range check) hand-written; tie = json.EncodeDuration and conv.DurationToString on boundary and random int64 values (all magnitudes, round values), time.ParseDuration on the written texts and one-byte mutants of them (restricted to fractions that time.ParseDuration's float64 arithmetic computes exactly: no more fraction digits than the unit has decimal places)",
+        "NOT proved (standard-library contracts, exercised on the implementation only): ParseFloat∘FormatFloat(-1, bits), time.Parse∘Format for the date/time/date-time layouts, the other input forms of uuid.Parse, netip/MAC/url round trips",
     ],
     "assumptions": ["non-finite floats are outside the domain", "date-time/time resolution is one second (the layouts carry no fraction); years 0–9999"],
-    "level_text": "partial: uint_rt/int_rt (every value of every width, parametric in the bit size), int_syntax, bool_rt, unix_text_value_text / unix_value_text_value / unix_exact (all four units, negative instants included), uuid_rt / uuid_syntax / uuid_text_injective (ogen's own hexEncode against the parser's 36-byte branch) are Lean theorems about models tied to the code differentially; float_spec_ok is a theorem over facts regenerated from the source (shortest-round-trip formatting is what every float helper asks strconv for); every other helper pair (floats, durations, times, UUID, IP, MAC, URL; conv and json) is checked on the implementation only — exhaustive for 8/16-bit integers and booleans, boundary + random elsewhere — because it rests on stdlib contracts the model does not contain",
+    "level_text": "partial: uint_rt/int_rt (every value of every width, parametric in the bit size), int_syntax, bool_rt, unix_text_value_text / unix_value_text_value / unix_exact (all four units, negative instants included), uuid_rt / uuid_syntax / uuid_text_injective (ogen's own hexEncode against the parser's 36-byte branch), duration_rt / duration_fraction_canonical (ogen's formatDuration against the documented reading of a duration text, every int64) are Lean theorems about models tied to the code differentially; float_spec_ok is a theorem over facts regenerated from the source (shortest-round-trip formatting is what every float helper asks strconv for); every other helper pair (floats, durations, times, UUID, IP, MAC, URL; conv and json) is checked on the implementation only — exhaustive for 8/16-bit integers and booleans, boundary + random elsewhere — because it rests on stdlib contracts the model does not contain",
     "level_note": "trusted: Lean kernel, statements, model of strconv integer/boolean text + its differential tie, the Go harness; stdlib float/time/uuid/netip/url contracts are assumptions tested on every run, not theorems.",
     "technique": "Lean 4 round-trip theorems for integer/boolean text, parametric in the width; differential tie to conv; implementation-only exhaustive/random round trips for stdlib-backed formats",
 }
